@@ -184,6 +184,11 @@ pub fn minimise(env: &Env, start: MiniWorld, item: Option<Item>, d0: Divergence,
             }
         }
     }
+    if cur.bad.warm_disk != r.warm_disk {
+        let mut c = cur.clone();
+        c.bad.warm_disk = r.warm_disk;
+        attempt!("cold disk", c);
+    }
     if has_perturb(&cur.bad) {
         let mut c = cur.clone();
         c.bad.events.retain(|e| !matches!(e, Event::Perturb { .. }));
